@@ -678,9 +678,20 @@ proof fn lemma_spliced_covered(c: Seq<u8>, o: CList, n: CList, p: int, lo: int, 
         r matches Ok(None) ==> s.text().len() == 0,
 //@end
 
+// The line-by-line walk keeps a cursor `last` = handle of the newest entry.  An edit may drop the cursor and use `prev`
+// throughout (held-out seed C18/2 = C16/1).  So that such code is JUDGED by the walk's invariants (which must name the
+// newest entry) instead of ending as "anchor lost": when the walk arm declares NO cursor at all (`let mut X = prev;`
+// absent), a GHOST cursor `last` is declared before the loop and a statement-form `chroms.insert_after(..);` (result
+// dropped) hands its result to that ghost cursor.  Ghost code only: what the code computes is untouched; the ghost
+// `last` is, by construction, the newest entry, so the invariant `scan/last_is_the_newest_entry` then speaks about the
+// LIST, and `scan/new_entry_goes_right_behind_the_newest` / `scan/every_run_start_passed_so_far_is_recorded` decide.
+// (A cursor under another name leaves `last` undefined: front-end refusal, exit 2.  A real `last` whose insert result
+// is dropped gets no ghost help: it is judged as it stands and fails `scan/last_is_the_newest_entry`.)
 //@extract fn bigtools/src/bed/indexer.rs do_index
 //@rule R16
 //@rule R6
+//@presub /\A(?!.*let mut \w+ = prev;)(.*?)^([ \t]*)loop \{[ \t]*$/ => \1\2let ghost mut last: CIndex = prev;\n\2loop { min=0 count=1
+//@presub /(let ghost mut last: CIndex = prev;.*?)^([ \t]*)chroms\.insert_after\(([^;]*)\);[ \t]*$/ => \1\2let ins__ = chroms.insert_after(\3);\n\2proof { last = ins__; } min=0 count=1
 //@sub /BufReader<File>/ => VLines
 //@sub /IndexList<\(u64, String\)>/ => CList
 //@sub /line: &mut String/ => line: &mut LineBuf
@@ -737,6 +748,8 @@ proof fn lemma_spliced_covered(c: Seq<u8>, o: CList, n: CList, p: int, lo: int, 
                         spliced(c, l0, *chroms, p, a, b),
                         chroms@.len() >= l0@.len(), chroms@[p] == l0@[p],
                         forall|i: int| p < i <= p + (chroms@.len() - l0@.len()) ==> (#[trigger] chroms@[i]).0 < file.pos(),
+                        [[L: scan/prev_stays_live_at_its_position]]
+                        chroms.has(prev), chroms.pos(prev) == p,
                         [[L: scan/last_is_the_newest_entry]]
                         chroms.has(last), chroms.pos(last) == p + (chroms@.len() - l0@.len()),
                         file.pos() == a ==> chroms@.len() == l0@.len(),
@@ -777,7 +790,7 @@ proof fn lemma_spliced_covered(c: Seq<u8>, o: CList, n: CList, p: int, lo: int, 
                         }
                         sp = t;
                     }
-//@at /last = chroms\.insert_after\(/ after
+//@at /^\s*(?:last = |let ins__ = )?chroms\.insert_after\(/ after
                         let ghost v: Entry = chroms@[q + 1];
                         assert(chroms@ == m@.insert(q + 1, v)); [[L: scan/new_entry_goes_right_behind_the_newest]]
                         assert(entry_ok(c, v)); [[L: scan/inserted_entry_names_the_line_at_its_offset]]
